@@ -100,7 +100,7 @@ def k_align(run, case):
     only = mode == "scale_only"
     if only and rng.random() < .5:
         cs = True  # correct_only_scale has priority
-    out = contracts.outcome_of(t_est.align, t_ref, cs, only, n)
+    out = contracts.outcome_of(t_est.align, t_ref, cs, only, gen.spell_int(rng, n))
     used = N if n == -1 else n
     x, y = est["p"][:used].T, ref["p"][:used].T
     dig = core.digest(ref["p"], est["p"], est["R"], mode, n, storage)
